@@ -788,9 +788,14 @@ void Parser::ParserImpl::loadUnits(const UnitsPtr &units, const XmlNodePtr &node
             // Do nothing.
         } else {
             auto issue = Issue::IssueImpl::create();
-            issue->mPimpl->setDescription("Units '" + units->name() + "' has an invalid child element '" + childNode->name() + "'.");
+            if (mParsing1XVersion) {
+                issue->mPimpl->setDescription("Units '" + units->name() + "' ignoring child element '" + childNode->name() + "'.");
+                issue->mPimpl->setLevel(Issue::Level::MESSAGE);
+            } else {
+                issue->mPimpl->setDescription("Units '" + units->name() + "' has an invalid child element '" + childNode->name() + "'.");
+                issue->mPimpl->setReferenceRule(Issue::ReferenceRule::XML_UNEXPECTED_ELEMENT);
+            }
             issue->mPimpl->mItem->mPimpl->setUnits(units);
-            issue->mPimpl->setReferenceRule(Issue::ReferenceRule::XML_UNEXPECTED_ELEMENT);
             addIssue(issue);
         }
         childNode = childNode->next();
@@ -821,9 +826,14 @@ void Parser::ParserImpl::loadUnit(const UnitsPtr &units, const XmlNodePtr &node)
             // Do nothing.
         } else {
             auto issue = Issue::IssueImpl::create();
-            issue->mPimpl->setDescription("Unit referencing '" + node->attribute("units") + "' in units '" + units->name() + "' has an invalid child element '" + childNode->name() + "'.");
+            if (mParsing1XVersion) {
+                issue->mPimpl->setDescription("Unit referencing '" + node->attribute("units") + "' in units '" + units->name() + "' ignoring child element '" + childNode->name() + "'.");
+                issue->mPimpl->setLevel(Issue::Level::MESSAGE);
+            } else {
+                issue->mPimpl->setDescription("Unit referencing '" + node->attribute("units") + "' in units '" + units->name() + "' has an invalid child element '" + childNode->name() + "'.");
+                issue->mPimpl->setReferenceRule(Issue::ReferenceRule::XML_UNEXPECTED_ELEMENT);
+            }
             issue->mPimpl->mItem->mPimpl->setUnits(units);
-            issue->mPimpl->setReferenceRule(Issue::ReferenceRule::XML_UNEXPECTED_ELEMENT);
             addIssue(issue);
         }
         childNode = childNode->next();
@@ -1175,8 +1185,13 @@ void Parser::ParserImpl::loadConnection(const ModelPtr &model, const XmlNodePtr 
                 // Do nothing.
             } else {
                 auto issue = Issue::IssueImpl::create();
-                issue->mPimpl->setDescription("Connection in model '" + model->name() + "' has an invalid child element '" + grandchildNode->name() + "' of element '" + childNode->name() + "'.");
-                issue->mPimpl->setReferenceRule(Issue::ReferenceRule::XML_UNEXPECTED_ELEMENT);
+                if (mParsing1XVersion) {
+                    issue->mPimpl->setDescription("Connection in model '" + model->name() + "' ignoring child element '" + grandchildNode->name() + "' of element '" + childNode->name() + "'.");
+                    issue->mPimpl->setLevel(Issue::Level::MESSAGE);
+                } else {
+                    issue->mPimpl->setDescription("Connection in model '" + model->name() + "' has an invalid child element '" + grandchildNode->name() + "' of element '" + childNode->name() + "'.");
+                    issue->mPimpl->setReferenceRule(Issue::ReferenceRule::XML_UNEXPECTED_ELEMENT);
+                }
                 issue->mPimpl->mItem->mPimpl->setModel(model);
                 addIssue(issue);
             }
@@ -1465,9 +1480,14 @@ ComponentPtr Parser::ParserImpl::loadComponentRef(const ModelPtr &model, const X
             // Do nothing.
         } else {
             auto issue = Issue::IssueImpl::create();
-            issue->mPimpl->setDescription("Encapsulation in model '" + model->name() + "' has an invalid child element '" + childComponentNode->name() + "'.");
+            if (mParsing1XVersion) {
+                issue->mPimpl->setDescription("Encapsulation in model '" + model->name() + "' ignoring child element '" + childComponentNode->name() + "'.");
+                issue->mPimpl->setLevel(Issue::Level::MESSAGE);
+            } else {
+                issue->mPimpl->setDescription("Encapsulation in model '" + model->name() + "' has an invalid child element '" + childComponentNode->name() + "'.");
+                issue->mPimpl->setReferenceRule(Issue::ReferenceRule::COMPONENT_REF_CHILD);
+            }
             issue->mPimpl->mItem->mPimpl->setEncapsulation(model);
-            issue->mPimpl->setReferenceRule(Issue::ReferenceRule::COMPONENT_REF_CHILD);
             addIssue(issue);
         }
 
@@ -1518,9 +1538,14 @@ void Parser::ParserImpl::loadEncapsulation(const ModelPtr &model, const XmlNodeP
             // Do nothing.
         } else {
             auto issue = Issue::IssueImpl::create();
-            issue->mPimpl->setDescription("Encapsulation in model '" + model->name() + "' has an invalid child element '" + componentRefNode->name() + "'.");
+            if (mParsing1XVersion) {
+                issue->mPimpl->setDescription("Encapsulation in model '" + model->name() + "' ignoring child element '" + componentRefNode->name() + "'.");
+                issue->mPimpl->setLevel(Issue::Level::MESSAGE);
+            } else {
+                issue->mPimpl->setDescription("Encapsulation in model '" + model->name() + "' has an invalid child element '" + componentRefNode->name() + "'.");
+                issue->mPimpl->setReferenceRule(Issue::ReferenceRule::ENCAPSULATION_CHILD);
+            }
             issue->mPimpl->mItem->mPimpl->setEncapsulation(model);
-            issue->mPimpl->setReferenceRule(Issue::ReferenceRule::ENCAPSULATION_CHILD);
             addIssue(issue);
         }
 
